@@ -79,13 +79,33 @@ func TestVerif_C04(t *testing.T) {
 		}
 		shape := fmt.Sprintf("n=%d/rel=%d/%s/parse=%v/%s", size, len(rel), seenPattern, parse, corruption)
 		if corruption == "" {
+			snap := w.e.store.Clone()
 			w.mine(txs, parse)
+			if r.Intn(6) == 0 && len(rel) >= 1 {
+				// crash image of an initial sync: the per-height tx records of the block reached
+				// storage, the header file did not; a new node processes the block again
+				shape += "/reprocessed-after-crash"
+				crash := w.e.store.Clone()
+				for _, k := range crash.Keys() {
+					if len(k) > 15 && k[:15] == "spynode/blocks/" {
+						if b, ok := snap.Get(k); ok {
+							crash.Put(k, b)
+						}
+					}
+				}
+				w.judgeFrom = len(w.e.log.snapshot())
+				if err := w.boot(crash); err != nil {
+					rep.Inconc(ci, "reboot on crash image: "+err.Error())
+					continue
+				}
+				rep.Event("blocks_reprocessed_after_crash", 1)
+			}
 			w.checkC04(2)
 			w.checkC03(2)
 			// a seen tx must be confirmed by an update, a new one by HandleTx: exactly one each
 			evs := w.e.log.snapshot()
 			for _, ti := range txs {
-				if !ti.relevant {
+				if !ti.relevant || w.judgeFrom > 0 {
 					continue
 				}
 				nProof := 0
@@ -142,14 +162,23 @@ func TestVerif_C04(t *testing.T) {
 			}
 			heightBefore := w.e.node.blocks.LastHeight()
 			mark := len(w.e.log.snapshot())
+			direct := r.Intn(2) == 0
+			if direct {
+				corruption += "-direct"
+			}
 			w.guard("corrupt block", func() {
 				resp := w.e.handle(headersMsg(b))
 				if len(invHashes(resp, wire.InvTypeBlock)) != 1 {
 					w.find("C04", "C04/harness-block-not-requested", "announced block was not requested")
 					return
 				}
-				w.e.handle(blockMsg(b.MsgWithTxs(body), parse))
-				for w.e.step() {
+				if direct {
+					// hand the body straight to the block processor (exported entry point)
+					w.e.node.ProcessBlock(w.e.ctx, blockMsg(b.MsgWithTxs(body), parse).(wire.Block))
+				} else {
+					w.e.handle(blockMsg(b.MsgWithTxs(body), parse))
+					for w.e.step() {
+					}
 				}
 				w.e.procErr = nil
 			})
